@@ -580,7 +580,7 @@ def race(jobs, timeout, tmpdir=None, stop_on=('unsat',)):
                         winner = label
                         break
             if winner is None and pending:
-                if time.time() - t0 > timeout + 5:
+                if time.time() - t0 > timeout + 1.5:
                     break
                 time.sleep(0.01)
     finally:
